@@ -107,4 +107,17 @@ def meanPopRank (k : Option Nat) (rankOf : Nat → Q) (L : List Nat) : Option Q 
   let l := truncate k L
   if l.isEmpty then none else some (((l.map rankOf).foldl (· + ·) 0) / (l.length : Q))
 
+/-- the popularity quantile `MeanPopRank` assigns: average rank among the items with a positive count, divided by
+    their number; 0 for items with no interactions and for items the training data does not know -/
+def popQuantile (counts : List (Nat × Nat)) (i : Nat) : Q :=
+  match counts.find? (fun p => p.1 == i) with
+  | none => 0
+  | some (_, c) =>
+    if c = 0 then 0
+    else
+      let pos := counts.filter (fun p => 0 < p.2)
+      let less := (pos.filter (fun p => p.2 < c)).length
+      let eq := (pos.filter (fun p => p.2 == c)).length
+      ((less : Q) + ((eq : Q) + 1) / 2) / (pos.length : Q)
+
 end LK.Metric
